@@ -31,24 +31,71 @@ def fmt_endpoint(typ, e, shift=4):
     return "%d" % e
 
 
-def retype(lines, typ, shift):
+IKINDS = ["u32", "usz", "i16", "i32"]
+KIND_MAX = {"u32": 4294967295, "usz": 1 << 62, "i16": 32767, "i32": 2147483647}
+TYPE_IMAX = {"u64": 1 << 62, "i64": 1 << 62, "i32": 2147483647, "f64": 1 << 53}
+
+
+def typed_twin(typ, toks, pick):
+    """for a query whose (already converted) bound tokens are non-negative: the same query passed with arguments of
+    another arithmetic type (qt / pt), or None.  pick(list) chooses the kind."""
+    vals = [float(t) for t in toks]
+    if any(v < 0 for v in vals):
+        return None
+    if all(v == int(v) and "." not in t and "e" not in t for v, t in zip(vals, toks)):
+        kinds = [k for k in IKINDS if all(v <= KIND_MAX[k] and v <= TYPE_IMAX[typ] for v in vals)]
+        if len(toks) == 2 and "i32" in kinds:
+            kinds.append("mix")
+        if typ == "f64":
+            kinds.append("f32") if all(v < (1 << 24) for v in vals) else None
+    elif typ == "f64":
+        import struct
+        kinds = ["f32"] if all(struct.unpack("f", struct.pack("f", v))[0] == v for v in vals) else []
+    else:
+        kinds = []
+    if not kinds:
+        return None
+    k = pick(kinds)
+    return ("qt %s %s %s" % (k, toks[0], toks[1])) if len(toks) == 2 else ("pt %s %s" % (k, toks[0]))
+
+
+def retype(lines, typ, shift, rng=None):
     """the same script over another endpoint type: every endpoint e becomes fmt_endpoint(typ, e, shift) (order-preserving),
-    the cfg line names the type.  All three instantiations of the harness run the same histories."""
-    if typ == "u64":
-        return list(lines)
+    the cfg line names the type.  All instantiations of the harness run the same histories.  Queries with non-negative
+    bounds are followed (always without rng, with probability 1/2 with rng) by the same query passed with arguments of
+    another arithmetic type (qt / pt: unsigned, size_t, short, int, float, mixed)."""
     w = lines[0].split()
+    if w[2] == "enum":
+        return list(lines)
     if len(w) == 3:
         w.append("1")
-    out = [" ".join(w[:4] + [typ])]
-    f = lambda e: fmt_endpoint(typ, int(e), shift)
+    out = [" ".join(w[:4] + ([typ] if typ != "u64" else []))]
+    f = lambda e: fmt_endpoint(typ if typ != "i32" else "i64", int(e), shift if typ != "u64" else 0)
+    cnt = [0]
+
+    def pick(ks):
+        if rng is not None:
+            return rng.choice(ks)
+        cnt[0] += 1
+        return ks[cnt[0] % len(ks)]
+
+    def twin(toks):
+        if rng is not None and rng.random() < 0.5:
+            return
+        tw = typed_twin(typ, toks, pick)
+        if tw:
+            out.append(tw)
     for l in lines[1:]:
         t = l.split()
         if t[0] == "i":
             out.append("i %s %s %s" % (f(t[1]), f(t[2]), t[3]))
         elif t[0] == "q":
             out.append("q %s %s" % (f(t[1]), f(t[2])))
+            if float(f(t[1])) <= float(f(t[2])):
+                twin([f(t[1]), f(t[2])])
         elif t[0] == "p":
             out.append("p %s" % f(t[1]))
+            twin([f(t[1])])
         elif t[0] == "w":
             out.append("w %s %s" % (t[1], f(t[2])))
         else:
@@ -78,12 +125,22 @@ def enum_script(n, u, k, inverted=False, typ="u64"):
     x, seq = k, []
     for j in range(n):
         seq.append(ivs[x % len(ivs)]); x //= len(ivs)
-    lines = [_cfg(n)] + ["i %d %d %d" % (lo, hi, j) for j, (lo, hi) in enumerate(seq)] + qs
+    ins = ["i %d %d %d" % (lo, hi, j) for j, (lo, hi) in enumerate(seq)]
+    if typ != "u64":
+        # typed instantiation: endpoints through fmt_endpoint (shift 4), then every query with non-negative bounds again with
+        # arguments of another arithmetic type (mirror of enum_script in harness.cpp / driver.ml)
+        f = lambda e: fmt_endpoint("i64" if typ == "i32" else typ, e, 4)
+        ins = ["i %s %s %d" % (f(lo), f(hi), j) for j, (lo, hi) in enumerate(seq)]
+        qs = [("q %s %s" % (f(int(q.split()[1])), f(int(q.split()[2])))) if q[0] == "q" else "p %s" % f(int(q.split()[1])) for q in qs]
+        fl = typ == "f64"
+        qs += ["qt %s %s %s" % ("f32" if fl else IKINDS[(lb + ub) % 4], f(lb), f(ub)) for lb in range(4, u + 1) for ub in range(lb, u + 1)]
+        qs += ["pt %s %s" % ("f32" if fl else IKINDS[p % 4], f(p)) for p in range(4, u + 1)]
+    lines = [_cfg(n) + ("" if typ == "u64" else " " + typ)] + ins + qs
     if n >= 2:
         mx = max(range(n), key=lambda j: (seq[j][1], -j))
         victim = mx if k % 2 == 0 else (k // 2) % n
         lines += ["r %d" % victim] + qs
-    return retype(lines, typ, 4)
+    return lines
 
 
 def exhaustive(n, u, inverted=False, typ="u64"):
@@ -387,7 +444,15 @@ def corpus():
     # retype) and mixed sign (shift 4).  Seeded change C07-r4-2 (max_of(absent child) = numeric_limits<P>::min(), which is
     # the smallest POSITIVE double): first visible on "i -0.25 0 0" of corpus-f64-4-demo (subtree_max 2.2e-308 instead of 0).
     for name, ls in list(cs):
-        for typ in ("i64", "f64"):
+        for typ in ("i64", "i32", "f64"):
             for shift in (100, 4):
                 cs.append(("%s-%s-%d" % (name.replace("corpus-", "corpus-%s-" % typ), "s", shift), retype(ls, typ, shift)))
+    # seeded change C07-r5-1 (query bounds as deduced template types, compared per operand): a signed tree with a negative
+    # bound, the query passed as size_t / unsigned -- the usual arithmetic conversions make -3 a huge unsigned number
+    cs.append(("corpus-qtype-i64", ["cfg 4 full 1 i64", "i -3 2 0", "i 1 5 1", "i -7 -6 2", "q 1 2", "qt usz 1 2", "qt u32 1 2", "qt i16 1 2", "qt i32 1 2", "qt mix 1 2",
+                                    "p 0", "pt usz 0", "pt u32 0", "p 6", "pt usz 6", "qt usz 0 9"]))
+    cs.append(("corpus-qtype-i32", ["cfg 4 full 1 i32", "i -3 2 0", "i 1 5 1", "i -7 -6 2", "q 1 2", "qt u32 1 2", "qt usz 1 2", "qt i16 1 2", "qt mix 1 2",
+                                    "p 0", "pt u32 0", "pt usz 0", "p 6", "pt u32 6", "qt u32 0 9"]))
+    cs.append(("corpus-qtype-f64", ["cfg 4 full 1 f64", "i -0.75 0.5 0", "i 0.25 1.25 1", "i -2 -1.5 2", "q 0.25 0.5", "qt f32 0.25 0.5", "qt i32 0 1", "qt u32 1 1",
+                                    "p 0", "pt f32 0", "pt i32 1", "pt usz 1", "qt f32 0.1 0.5", "qt i32 -1 1"]))
     return cs
